@@ -47,6 +47,9 @@ def _norm_children(children, lazy_titles=True):
         d = c.as_dict(children=False)
         if c.type == "code_inline":
             d["content"] = re.sub(r" +", " ", d["content"]).strip(" ")
+        if lazy_titles and c.type == "html_inline":
+            # raw HTML that spans a lazy continuation line keeps that line's leading spaces (the property's allowance)
+            d["content"] = "\n".join(l.lstrip(" ") if i else l for i, l in enumerate(d["content"].split("\n")))
         if lazy_titles and c.type in ("link_open", "image") and d.get("attrs"):
             # a title that comes from a definition continued on a lazy line (see env_loose)
             d["attrs"] = [[k, "\n".join(l.lstrip(" ") for l in v.split("\n")) if k == "title" and isinstance(v, str) else v]
